@@ -150,14 +150,8 @@ async def exchange(case, script):
             kw["update_state"] = True
         with vclock.frozen_epoch("UTC", case["ts"]):
             import asyncio
-            try:
-                slow_secs = (case.get("slow") or {}).get("secs", 0)
-                res = await asyncio.wait_for(cl.api.control_breeze_device(remote, **kw), 20 + 2 * slow_secs)
-                out = ("ok", res)
-            except asyncio.TimeoutError:
-                out = ("timeout", None)
-            except Exception as exc:  # noqa
-                out = ("raise", exc)
+            slow_secs = (case.get("slow") or {}).get("secs", 0)
+            out = await ops.guarded(cl.api.control_breeze_device(remote, **kw), 20 + 2 * slow_secs)
             if case.get("slow") and out[0] != "ok":
                 await asyncio.sleep(case["slow"]["secs"] + 1)
             await cl.settle()
